@@ -583,3 +583,36 @@ fn cc_read() {
     std::mem::forget(r);
     std::mem::forget(cc);
 }
+
+// ---------------------------------------------------------------------------------------------
+// S7: flush_outgoing_writes (C08)
+// ---------------------------------------------------------------------------------------------
+// @harness props=C08 props_thorough=C03,C09 tiers=quick:K=0,N=2|K=1,N=2|K=2,N=2|K=3,N=3|K=3,N=2|K=0,N=0;thorough:K=0,N=2|K=1,N=2|K=2,N=2|K=3,N=2|K=3,N=3|K=0,N=0|K=0,N=4|K=0,N=5 unwind=6 cap=900 mem=2 covers=1
+// @fn HttpServer::flush_outgoing_writes ClientConnection::write
+// @stubs std::fmt::format
+// @claim flush_outgoing_writes writes queued output without polling and leaves the server invariant intact: a connection whose output was written completely is AwaitingIncoming *and registered for IN again*, so that the next poll neither fails (a write-readiness event on a connection with nothing to send) nor spins; a failed write closes the connection and discards its output; connections without pending output are not touched
+// @bounds one connection in shape N (a flush that has to dequeue a second response - shapes 1 and 3 with a successful first write - runs out of memory and is not discharged); first write answered K (0 everything, 1 partly, 2 interrupted, 3 failure), later writes of the same flush accepted completely; contract model of try_write
+#[kani::proof]
+#[kani::stub(std::fmt::format, format_stub)]
+fn srv_flush() {
+    let mut srv = mk_server(kani::any());
+    add_conn(&mut srv, C0, crate::verif_params::N);
+    let pre = view(&srv, C0);
+    kani::assume(sinv_conn(&pre, C0));
+    unsafe { ck::WRITE_PLAN[C0 as usize] = crate::verif_params::K as u8 };
+    srv.flush_outgoing_writes();
+    let w = world();
+    let v = view(&srv, C0);
+    assert!(v.present && v.in_flight == pre.in_flight, "[C08] flush changed the bookkeeping");
+    assert!(w.ctl_errors == 0);
+    if pre.state == 1 {
+        assert!(w.writes[C0 as usize] >= 1, "[C08] queued output not written by flush");
+        assert!(!v.pending, "[C08] output left over although the stream accepted everything (or failed)");
+        assert!(v.state == if crate::verif_params::K == 3 { 2 } else { 0 });
+    } else {
+        assert!(w.writes[C0 as usize] == 0 && v.state == pre.state, "[C08] flush touched a connection without pending output");
+    }
+    assert!(sinv_conn(&v, C0), "[C08,C09] after flush_outgoing_writes the epoll registration does not match the connection state: the next poll gets a write-readiness event for a connection with nothing to send");
+    kani::cover!(true, "end reached");
+    std::mem::forget(srv);
+}
